@@ -154,6 +154,21 @@ def _rtl(prog, res):
                     'extend', 'append') and any(x is c for x in ast.walk(coll))
                 and 'eps' in passes):
               good = True
+  # the same as a comprehension: [a for layer in self._lattice_layers...
+  #                               for a in layer.assert_constraints(eps)]
+  for comp in ast.walk(fn.node):
+    if isinstance(comp, (ast.ListComp, ast.GeneratorExp)):
+      vars_ = [g.target.id for g in comp.generators
+               if isinstance(g.target, ast.Name) and
+               'self._lattice_layers' in names_read(g.iter)]
+      for c in ast.walk(comp):
+        if (isinstance(c, ast.Call) and isinstance(c.func, ast.Attribute)
+            and c.func.attr == 'assert_constraints'
+            and dotted(c.func.value) in vars_):
+          passes = [dotted(a) for a in c.args] + [
+              dotted(k.value) for k in c.keywords if k.arg == 'eps']
+          if 'eps' in passes and not any(g.ifs for g in comp.generators):
+            good = True
   res.check(good, 'W1', 'rtl_layer.RTL.assert_constraints|all-lattices',
             fn.loc(),
             'every lattice layer is asserted with the caller\'s eps and the '
